@@ -22,7 +22,7 @@ KINDS = ["append-member", "insert-member", "remove-member", "change-member-type"
 
 
 def plan(tier):
-    return {"n": 250 if tier == "quick" else 3000, "floor": 60 if tier == "quick" else 800}
+    return {"n": 250 if tier == "quick" else 1000, "floor": 60 if tier == "quick" else 266}
 
 
 def rule(tier):
